@@ -885,23 +885,23 @@ def run_shard(tier, seed, shard, nshards, res):
             if fault[0] == 'before' and not timeout and (expect in ('timeout', 'read') or expect.startswith('report')) \
                     and (i // nshards) % 3 == 0:
                 run_case(dc, sc, res, label, make, dirs_of, call, fault, retry, timeout, expect, cls, fresh_thread=True)
-            if res.counters.get('violations_raw', 0) > 10:
+            if res.new_violations() > 10:
                 return
         for i, (label, call, retry, k) in enumerate(reader_cases()):
             if i % nshards != shard:
                 continue
             reader_case(dc, sc, res, label, call, retry, k)
-            if res.counters.get('violations_raw', 0) > 10:
+            if res.new_violations() > 10:
                 return
         for i, (label, cls, call, want) in enumerate(reader_cases_sharded()):
             if i % nshards != shard:
                 continue
             reader_case_sharded(dc, sc, res, label, cls, call, want)
-            if res.counters.get('violations_raw', 0) > 10:
+            if res.new_violations() > 10:
                 return
         for i, (label, call, retry, ending) in enumerate(sibling_cases()):
             if i % nshards != shard:
                 continue
             sibling_case(dc, sc, res, label, call, retry, ending)
-            if res.counters.get('violations_raw', 0) > 10:
+            if res.new_violations() > 10:
                 return
